@@ -8,6 +8,7 @@ import KanidmModel.Privilege
 * `advance <dt>`                                         → `ok`
 * `use <tok>`                                            → `scope ro|rw|sync` | `err <kind>`
 * `useat <tok> <ct>`   (same as `use` at instant `ct`, the clock is not changed)
+* `process <tok> <ct>` (`process_uat_to_identity` alone: no token-expiry check)
 * `revoke <sid>`                                         → `ok`
 * `forge <sid> <issuedAt> <expiry|-> <purpose> <anon>`   → `token …` (adds an arbitrary token;
   the harness signs the same one with the server's key)
@@ -106,6 +107,16 @@ def handle (w : World) (line : String) : World × String :=
   | ["useat", tok, ct] =>
     match nat? tok, nat? ct with
     | some tok, some ct => (w, showReply (step { w with now := ct } (.use tok)).2)
+    | _, _ => (w, "bad-op")
+  | ["process", tok, ct] =>
+    match nat? tok, nat? ct with
+    | some tok, some ct =>
+      match w.tokens[tok]? with
+      | none => (w, "err nosuchtoken")
+      | some u =>
+        match processUat w.sessions u ct with
+        | .ok s => (w, showAccess s)
+        | .error e => (w, "err " ++ showErr e)
     | _, _ => (w, "bad-op")
   | ["revoke", sid] =>
     match nat? sid with
